@@ -15,6 +15,7 @@
 (* Time is in units of 100 microseconds of the virtual clock.                *)
 (***************************************************************************)
 EXTENDS BitOps, Sequences, SequencesExt, FiniteSets, TLC, Json, IOUtils
+CONSTANT Skip
 CONSTANTS Wp, Wm,          \* datagram / message window widths (32, 256)
           Keep,            \* message infos older than this many messages are pruned
           StaleMsgDeviation,   \* TRUE: accept the named deviation "msg-stale-redelivery" (KNOWN_FINDINGS) and record it
@@ -259,7 +260,7 @@ RecvFailing(ev, e, mr) ==
                ~CASE c = "R_pend" -> R_pend(e, ev.acked, ev.timedout) [] c = "R_time" -> R_time(e, ev.timedout, ev.now)
                   [] c = "R_cbs" -> R_cbs(e, ev.acked, ev.timedout, ev.cbs) [] c = "R_true" -> R_true(e, ev.cbs)}
         ELSE {})
-Clauses ==
+RawClauses ==
   IF l > Len(Tr) THEN {}
   ELSE LET ev == Ev IN
     IF ev.ev = "send" THEN
@@ -282,6 +283,9 @@ Clauses ==
     ELSE IF ev.ev = "end" THEN
        {c \in {"E_delivered", "E_cb", "E_left"} : ~CASE c = "E_delivered" -> E_delivered(ev) [] c = "E_cb" -> E_cb(ev) [] c = "E_left" -> E_left(ev)}
     ELSE {"unknown-event"}
+\* Skip: clause names left out of the verdict.  Empty in every first pass.  When a trace is rejected only at clauses that belong to OTHER properties than the
+\* one being decided, the harness judges that trace again with those clauses skipped, so that the rest of the trace is examined for this property too.
+Clauses == RawClauses \ Skip
 (***************************************************************************)
 (* ALIAS: what a rejection prints - trace id, position, the event, and the   *)
 (* names of the clauses that are false for it in the current state.          *)
